@@ -23,6 +23,26 @@ theorem rdU32_le32 (x : Nat) (r : Bytes) : rdU32 (le32 x ++ r) = some (x % 42949
 theorem length_le16 (x : Nat) : (le16 x).length = 2 := rfl
 theorem length_le32 (x : Nat) : (le32 x).length = 4 := rfl
 
+/-- `x & ~3` on a 64-bit unsigned value clears the two low bits -/
+theorem land_mask4 (x : Nat) (hx : x < 2 ^ 64) : Nat.land x 18446744073709551612 = x / 4 * 4 := by
+  show x &&& 18446744073709551612 = x / 4 * 4
+  have hm : (18446744073709551612 : Nat) = (2 ^ 62 - 1) <<< 2 := by decide
+  have hr : x / 4 * 4 = (x >>> 2) <<< 2 := by
+    rw [Nat.shiftLeft_eq, Nat.shiftRight_eq_div_pow]
+  rw [hm, hr]
+  apply Nat.eq_of_testBit_eq
+  intro i
+  simp only [Nat.testBit_and, Nat.testBit_shiftLeft, Nat.testBit_shiftRight, Nat.testBit_two_pow_sub_one]
+  by_cases h2 : i ≥ 2
+  · have e : 2 + (i - 2) = i := by omega
+    simp only [h2, decide_true, Bool.true_and, e]
+    by_cases h64 : i < 64
+    · have : i - 2 < 62 := by omega
+      simp [this]
+    · have hlt : x < 2 ^ i := Nat.lt_of_lt_of_le hx (Nat.pow_le_pow_right (by decide) (by omega))
+      simp [Nat.testBit_lt_two_pow hlt]
+  · simp [h2]
+
 /-! ### pixel rows -/
 
 /-- `enc` writes exactly `size` bytes and `dec` reads them back -/
